@@ -315,6 +315,28 @@ func c24Params(maxLen int) *explore.Scenario {
 			if !bytes.Equal(ref, buf[4:]) {
 				r.Violate("C24|params|non-minimal", "list %v: body % x is not the minimal encoding % x", names, trunc(buf[4:], 40), trunc(ref, 40))
 			}
+			// results stay valid while other lists are marshaled: the bytes returned for this list by
+			// Marshal, and what this extension object reads after its Len(), must not change when a
+			// second list (fixed, different) goes through Marshal / Len / Read in between
+			if len(list) > 0 {
+				saved := list.Marshal()
+				snapshot := append([]byte(nil), saved...)
+				extA := &tls.QUICTransportParametersExtension{TransportParameters: list}
+				lenA := extA.Len()
+				other := tls.TransportParameters{tls.MaxIdleTimeout(12345), tls.InitialMaxData(77), &tls.FakeQUICTransportParameter{Id: 0x77, Val: rep(0x5e, 40)}}
+				ob := other.Marshal()
+				extB := &tls.QUICTransportParametersExtension{TransportParameters: other}
+				bb := make([]byte, extB.Len())
+				extB.Read(bb)
+				_ = ob
+				if !bytes.Equal(saved, snapshot) {
+					r.Violate("C24|params|marshal-result-changed-by-a-later-marshal", "list %v: the slice returned by Marshal changed after another list was marshaled", names)
+				}
+				ba := make([]byte, lenA)
+				if n, _ := extA.Read(ba); n != lenA || !bytes.Equal(ba, buf) {
+					r.Violate("C24|params|extension-changed-by-a-later-marshal", "list %v: Len() then (another extension's Len/Read) then Read() gives %d bytes differing from the first encoding", names, n)
+				}
+			}
 			x.Transitions += len(gens)
 			r.Obs = fmt.Sprintf("len%d|viol=%d", len(gens), len(r.Viol))
 			r.Nontrivial = len(gens) > 0
@@ -337,7 +359,7 @@ func c24Scenarios(thorough bool) []*explore.Scenario {
 func init() {
 	register(&Prop{ID: "C24", Level: "exploration", Variant: "A", Scenarios: c24Scenarios,
 		Run: func(c *explore.Check, thorough bool) {
-			c.Rule = "varints: every x in [0,2^20], 2^k+d (k<=64,|d|<=2), every single non-zero byte pattern (thorough: pairs of byte patterns) x widths {1,2,4,8 and invalid 0,3,16} against an independent RFC 9000 codec (minimal Append, Len, Read inverse, AppendWithLen exact width, panic instead of truncation); parameter lists: every ordered list of length <=2 (3 thorough) over a menu of every parameter type with boundary values (integer values and ids at every varint width; value lengths 0..64, 16383, 16384, 20000), parsed by an independent parser and compared entry by entry and byte by byte with the minimal reference encoding. distinct = parameter list"
+			c.Rule = "varints: every x in [0,2^20], 2^k+d (k<=64,|d|<=2), every single non-zero byte pattern (thorough: pairs of byte patterns) x widths {1,2,4,8 and invalid 0,3,16} against an independent RFC 9000 codec (minimal Append, Len, Read inverse, AppendWithLen exact width, panic instead of truncation); parameter lists: every ordered list of length <=2 (3 thorough) over a menu of every parameter type with boundary values (integer values and ids at every varint width; value lengths 0..64, 16383, 16384, 20000), parsed by an independent parser and compared entry by entry and byte by byte with the minimal reference encoding, and still equal after a second list went through Marshal/Len/Read in between. distinct = parameter list"
 			c.Assumptions = []string{"62-bit value space is covered at [0,2^20], all powers of two +-2 and byte patterns, not symbolically", "GREASE parameter entropy scripted through crypto/rand.Reader"}
 			runAll(c, c24Scenarios(thorough), 0)
 			c.Extra["function_evaluations"] = c.Total.Counters["function_evaluations"]
